@@ -31,7 +31,7 @@ func init() {
 			if tier == "thorough" {
 				return fw.Plan{Shards: 16, CasesPerShard: 1200, TimeoutSec: 3000}
 			}
-			return fw.Plan{Shards: 8, CasesPerShard: 40, TimeoutSec: 900}
+			return fw.Plan{Shards: 8, CasesPerShard: 150, TimeoutSec: 900}
 		},
 		Run: runC05,
 	})
